@@ -149,4 +149,51 @@ def orderGet (tbl : List (OrderArg × Order)) (native : Order) (a : OrderArg) : 
 /-- the table of the model (`OrderArg.order`) -/
 def orderTableModel : List (OrderArg × Order) := [(.lt, .little), (.gt, .big), (.bang, .big)]
 
+/-! ### the working array of `chunks.array` (a mutable `array.array` of fixed size = a cell list with `set`) -/
+
+section arr
+variable {α ε σ β : Type}
+
+/-- item encoder of `array.array(dfmt, …)` / `chunk[idx] = v`: the machine representation of the item, with the
+conversion rules of the array module (`leElem false`) -/
+def arrEnc (native : Order) (dfmt : Fmt) : PVal → Except PackErr Bytes := encOrder native (leElem false dfmt)
+
+/-- `array.array(dfmt, [v] * n)` -/
+def arrNew (enc : α → Except ε Bytes) (v : α) (n : Nat) : Except ε (List Bytes) := (enc v).map (List.replicate n)
+
+/-- `chunk[idx] = v` (a failed conversion leaves the array as it was and raises) -/
+def arrSet (enc : α → Except ε Bytes) (chunk : List Bytes) (idx : Nat) (v : α) : Except ε (List Bytes) :=
+  (enc v).map (chunk.set idx)
+
+/-- `array.array(dfmt, chunk)` for an array `chunk` of the same type code: a copy, no conversion -/
+def arrCopy (chunk : List Bytes) : List Bytes := chunk
+
+/-- `a.byteswap()` -/
+def arrByteswap (chunk : List Bytes) : List Bytes := chunk.map List.reverse
+
+/-- `tobytes(a)` -/
+def arrTobytes (chunk : List Bytes) : Bytes := chunk.flatten
+
+/-- the values yielded during one pass of a loop body, before what the rest of the generator yields -/
+def Gen.prepend (ys : List β) (g : Gen β ε) : Gen β ε := ⟨ys ++ g.out, g.err⟩
+
+/-- `for i in xrange(lo, lo + n): s = body(i, s)` where the body may raise -/
+def forRange (body : Nat → σ → Except ε σ) : Nat → Nat → σ → Except ε σ
+  | 0, _, s => .ok s
+  | n + 1, i, s =>
+    match body i s with
+    | .error e => .error e
+    | .ok s => forRange body n (i + 1) s
+
+/-- `for x in xs: <body>` inside a generator, followed by `fin`: the body maps the loop state to the new state and
+the values it yields, or raises (only bodies that raise before their first yield are in the vocabulary) -/
+def forGen (body : σ → α → Except ε (σ × List β)) (fin : σ → Gen β ε) : σ → List α → Gen β ε
+  | s, [] => fin s
+  | s, x :: xs =>
+    match body s x with
+    | .error e => ⟨[], some e⟩
+    | .ok r => (forGen body fin r.1 xs).prepend r.2
+
+end arr
+
 end ALV.C18
